@@ -143,6 +143,52 @@ pub fn run(ctx: &Ctx, rep: &Report) {
         }
     }
     rep.part("length law", n, json!({"accepted": acc}));
+    // (a') order independence: a result must not depend on which frames were decoded before it
+    // (hidden state between calls): a fixed list is decoded forwards, backwards and interleaved with
+    // unrelated frames, on one thread; the rendered results must be identical per frame
+    {
+        let mut list: Vec<Vec<u8>> = Vec::new();
+        for hdr in (0..65536u32).step_by(5) {
+            for (len, fill) in [(7usize, 0x00u8), (14, 0xa5)] {
+                let mut f = vec![fill; len];
+                f[0] = (hdr >> 8) as u8;
+                f[1] = hdr as u8;
+                if f[0] >> 3 == 17 {
+                    seal(&mut f, 0);
+                }
+                list.push(f);
+            }
+        }
+        for name in fspace::REGISTERS {
+            for df in [20u8, 21] {
+                list.push(df20_21(df, 0, 0, 0, ac13_q(35000), &fspace::exemplar(name), 0x4840d6));
+            }
+        }
+        let render = |f: &Vec<u8>| -> String {
+            match fspace::decode(f) {
+                Ok(Ok(m)) => format!("{m:?}"),
+                Ok(Err(e)) => format!("Err({e})"),
+                Err(p) => format!("panic({p})"),
+            }
+        };
+        let fwd: Vec<String> = list.iter().map(render).collect();
+        let mut bwd: Vec<String> = list.iter().rev().map(render).collect();
+        bwd.reverse();
+        let noise = [df17(5, 0xabcdef, &me_bds09_gs(1, 0, 0, 0, 1, 500, 1, 400, 1, 1, 300, 1, 100), 0), df4_5(5, 3, 1, 2, id13(7, 7, 0, 0), 0x123456), df11(7, 0xffffff, 9)];
+        let mixed: Vec<String> = list.iter().enumerate().map(|(i, f)| {
+            let _ = render(&noise[i % 3].to_vec());
+            render(f)
+        }).collect();
+        let mut diff = 0u64;
+        for (i, f) in list.iter().enumerate() {
+            if fwd[i] != bwd[i] || fwd[i] != mixed[i] {
+                diff += 1;
+                rep.violation("order-dependent", format!("decoding {} gives a different result depending on which frames were decoded before it", hexs(f)), json!({"frame": hexs(f), "group": "order"}));
+            }
+        }
+        n += 3 * list.len() as u64;
+        rep.part("order independence", 3 * list.len() as u64, json!({"frames": list.len(), "different": diff}));
+    }
     let c = fspace::sweep(ctx, rep, &v, true);
     let frames = c.frames.load(std::sync::atomic::Ordering::Relaxed);
     let accepted = c.accepted.load(std::sync::atomic::Ordering::Relaxed);
